@@ -107,6 +107,9 @@ def gen_case(st, tier):
     case = {"w": "w5", "dirs": dirs, "id": {"kind": idk, "seed": rp.getrandbits(32)},
             "rhsm": (rp.getrandbits(32) if rk.random() < 0.15 else None),
             "uuid_seed": rk.getrandbits(32), "ops": [], "faults": []}
+    # how the subscription-manager peer spells its consumer id: candlepin ids are lower-case v4 in practice, but the
+    # peer is another program -- any well-formed UUID text may come back
+    case["rhsm_kind"] = rk.choice(["canonical", "canonical", "canonical", "v1", "upper", "hex", "v5", "braces"])
     nops = 1 + int(rp.random() ** 1.3 * (40 if tier == "thorough" else 30))
     for _ in range(nops):
         r = rp.random()
@@ -169,7 +172,20 @@ class Env(object):
     def rhsm_identity(self):
         if self.rhsm is None:
             return None
-        return str(_uuid.UUID(int=random.Random(self.rhsm).getrandbits(128), version=4))
+        bits = random.Random(self.rhsm).getrandbits(128)
+        kind = self.case.get("rhsm_kind", "canonical")
+        if kind == "v1":
+            return str(_uuid.UUID(int=bits, version=1))
+        if kind == "v5":
+            return str(_uuid.UUID(int=bits, version=5))
+        u = _uuid.UUID(int=bits, version=4)
+        if kind == "upper":
+            return str(u).upper()
+        if kind == "hex":
+            return u.hex
+        if kind == "braces":
+            return "{%s}" % u
+        return str(u)
 
     def plant(self, d, fname, target):
         path = os.path.join(self.dirs[d], fname)
@@ -508,6 +524,10 @@ def shrink(case):
         c = cp()
         c["rhsm"] = None
         yield c
+    if case.get("rhsm_kind", "canonical") != "canonical":
+        c = cp()
+        c["rhsm_kind"] = "canonical"
+        yield c
 
 
 class C17(Check):
@@ -521,7 +541,7 @@ class C17(Check):
             "history of 1-30 (thorough "
             "40) operations: generate_machine_id() read / new=True, write_registered_file, write_unregistered_file, delete_*_file, "
             "environment events between operations (marker deleted, symlink planted, directory removed/recreated, subscription "
-            "identity appearing/disappearing, identifier file deleted or rewritten externally) x injected faults (n-th write-open / "
+            "identity appearing/disappearing -- spelled as a canonical v4 UUID, a version-1 / version-5 UUID, upper-case, un-hyphenated or in braces --, identifier file deleted or rewritten externally) x injected faults (n-th write-open / "
             "remove inside an operation fails with ENOSPC/EIO/EACCES/EROFS/EDQUOT/EPERM, 35% of cases); invariants after every operation; non-trivial = "
             "history longer than one operation; distinct = digest of (returns, durable state after every step)")
     real_vs_stub = {
